@@ -8,13 +8,15 @@
       buffer, oldest-index outside the buffer — is rejected, and whatever is accepted is a consistent
       window (never an inconsistent instance).
     * SMM serializes its window only and rebuilds the sorted slice on the way back: the rebuilt slice
-      is a sorted permutation of the window contents (`C13_smm_rebuild`).
+      is a sorted permutation of the window contents (`C13_smm_rebuild`), and for every invariant state it is the very
+      slice the instance held, so the restored instance is the original one (`C13_smm_roundtrip`).
   Every other type derives Serialize/Deserialize: the property then reduces to `serde_derive` being a
   bijection on field lists and to float text round-trip in serde_json (both trusted); it is exercised
   by the correspondence run: every method and indicator, snapshot after 0…k steps at every ring phase,
   JSON round trip, original vs restored on a continuation, bit-identical.
 -/
 import YataProofs.Window
+import YataProofs.SMMSerde
 import YataModel.Spec
 import Generated.Surface
 namespace Yata.C13
@@ -44,6 +46,13 @@ theorem C13_smm_rebuild (l : List Nat) :
     (fun a b c h1 h2 => by simp at *; omega) (fun a b => by simp; omega) l
   simpa using this
 
+/-- SMM: the instance rebuilt from the serialized window equals the original instance (every invariant state; the cached
+    middle indices are functions of the window length, established by the constructor: `SMM.new_indices`) -/
+theorem C13_smm_roundtrip {β : Type} [LinearOrder β] [TotalCmp β] [TotalLike β] {s : SMM β} (h : SMM.Inv P s)
+    (hh : s.half = s.window.len / 2)
+    (hm : s.half_m1 = satSub (s.window.len / 2) (if s.window.len % 2 = 0 then 1 else 0)) :
+    SMM.ofWindow s.window (s.window.buf.mergeSort (fun a b => decide (a ≤ b))) = s := SMM.roundtrip h hh hm
+
 example : (⟨[4, 5, 3], 2, 3, 2⟩ : Window Nat).serialize = ([4, 5, 3], 2) := rfl
 
 end Yata.C13
@@ -52,3 +61,4 @@ end Yata.C13
 #print axioms Yata.C13.C13_window_roundtrip
 #print axioms Yata.C13.C13_window_rejects_malformed
 #print axioms Yata.C13.C13_smm_rebuild
+#print axioms Yata.C13.C13_smm_roundtrip
